@@ -60,7 +60,19 @@ def run(res):
         if os.path.exists(p):
             replay_file(res, p, corpus=True)
 
-    recs = parsestage.run_stage(res, res.tier, res.seed)
+    name_fe = "direct:no proc-macro panic under the real compiler (front-end corpus, one file, no harness)"
+    res.obligations.append(name_fe)
+    fe_bad = rustc_front_end(res)
+    if not fe_bad:
+        res.discharged.append(name_fe)
+    try:
+        recs = parsestage.run_stage(res, res.tier, res.seed)
+    except vlib.CheckError as e:
+        # harness/mac no longer builds against /repo (the pattern types changed shape): the correspondence cannot be run; what the
+        # real compiler showed above stands
+        if not fe_bad:
+            res.violation("no-failing-input-found", "correspondence front-end could not be run: " + str(e)[-900:], {"stream": "front-end"})
+        return
     name = "correspondence:front-end(outcome, error position, parsed tree)"
     res.obligations.append(name)
     dis = []
@@ -203,6 +215,107 @@ def rustc_error_positions(res):
     return bad
 
 
+def balanced(text):
+    """the text is a sequence of complete token trees (so that it can stand inside a macro call without breaking the FILE's syntax)"""
+    import corrupt
+    try:
+        corrupt.lex(text)
+    except Exception:
+        return False
+    stack, i, n = [], 0, len(text)
+    closers = {")": "(", "]": "[", "}": "{"}
+    while i < n:
+        ch = text[i]
+        if ch == '"':
+            i += 1
+            while i < n and text[i] != '"':
+                i += 2 if text[i] == "\\" else 1
+        elif ch == "r" and text[i + 1:i + 2] in ('"', "#") and (i == 0 or not (text[i - 1].isalnum() or text[i - 1] == "_")):
+            j, h = i + 1, 0
+            while j < n and text[j] == "#":
+                h, j = h + 1, j + 1
+            if j < n and text[j] == '"':
+                end = text.find('"' + "#" * h, j + 1)
+                if end < 0:
+                    return False
+                i = end + h
+        elif ch == "'" and i + 2 < n and (text[i + 2] == "'" or text[i + 1] == "\\"):
+            j = text.find("'", i + 2)
+            if j < 0:
+                return False
+            i = j
+        elif ch in "([{":
+            stack.append(ch)
+        elif ch in ")]}":
+            if not stack or stack.pop() != closers[ch]:
+                return False
+        i += 1
+    return not stack
+
+
+def rustc_front_end(res):
+    """The front end under the REAL compiler, without the in-process harness: several hundred invocations (the special and extreme
+    corpora, C15's malformations, single-token edits of generated patterns) in one file, each in a function of its own.  rustc
+    expands every macro call whatever the others did; no diagnostic may be `proc macro panicked`, and the compiler must finish.
+    This stream still runs when the pattern types of the macro crate change shape and harness/mac no longer builds."""
+    import random
+    import e2e
+    import corrupt
+    import patgen
+    rng = random.Random(res.seed * 911 + 13)
+    texts = list(parsestage.SPECIAL_VALID) + list(parsestage.BIG_INDEX) + list(parsestage.REGEX_LITERALS) + list(RUSTC_REJECTED)
+    for frags in parsestage.MALFORMED.values():
+        texts += ["v, " + f for f in frags] + ["v, Some(%s)" % f for f in frags[:2]] + ["v, (1, %s)" % f for f in frags[:1]]
+    valid = patgen.corpus(random.Random(rng.random()), "quick")
+    for text, node, lay in rng.sample(valid, min(len(valid), 120 if res.tier == "quick" else 1200)):
+        texts.append(text)
+        for kind, new in corrupt.corruptions(text, rng, 3):
+            texts.append(new)
+    seen, use = set(), []
+    for t in texts:
+        if t not in seen and balanced(t) and len(t) < 200000:
+            seen.add(t)
+            use.append(t)
+    lines = ["#![allow(unused)]", "use assert_struct::assert_struct;"]
+    ranges = []
+    for i, t in enumerate(use):
+        lines.append("fn f%d() { let v = 1; assert_struct!(" % i)
+        start = len(lines) + 1
+        body = t.split("\n")
+        lines += body
+        ranges.append((start, start + len(body) - 1))
+        lines.append("); }")
+    lines.append("fn main() {}")
+    o = e2e.compile_many(["\n".join(lines) + "\n"], run=False, json_diag=True, tag="c13fe")[0]
+    e2e.cleanup("c13fe")
+    panics = []
+    n_diag = 0
+    for l in o["stderr"].splitlines():
+        if not l.startswith("{"):
+            continue
+        try:
+            d = json.loads(l)
+        except ValueError:
+            continue
+        n_diag += 1
+        msg = d.get("message", "") + " " + " ".join(c.get("message", "") for c in d.get("children", []))
+        if "proc macro panicked" in msg or "proc-macro derive panicked" in msg:
+            ln = min([s["line_start"] for s in d.get("spans", [])] or [0])
+            idx = next((i for i, (a, b) in enumerate(ranges) if a - 1 <= ln <= b + 1), None)
+            panics.append((use[idx] if idx is not None else "?", msg[:300]))
+    bad = 0
+    if o.get("timeout") or (n_diag == 0 and not o["compiled"]):
+        bad += 1
+        res.violation("failing-input" if o.get("timeout") else "no-failing-input-found",
+                      "rustc did not finish (or printed no diagnostics) on the file of %d macro invocations: %s" % (len(use), o["stderr"][-400:]),
+                      {"stream": "front-end(rustc)"})
+    for t, msg in panics[:3]:
+        bad += 1
+        res.violation("failing-input", "under rustc the macro panics (proc macro panicked): " + msg, {"invocation": "assert_struct!(%s)" % t[:3000], "rustc_only": True})
+    res.streams["front-end(rustc, no harness)"] = {"invocations": len(use), "diagnostics": n_diag, "proc_macro_panics": len(panics)}
+    return bad
+
+
 def replay_file(res, path, corpus=False):
     v = json.load(open(path))
     inv = v.get("invocation") or v.get("first_disagreement", {}).get("invocation")
@@ -210,6 +323,14 @@ def replay_file(res, path, corpus=False):
         print("replay file has no invocation; it names a broken obligation:", v.get("what"))
         return 1
     text = inv[len("assert_struct!("):-1] if inv.startswith("assert_struct!(") else inv
+    if v.get("rustc_only"):
+        import e2e
+        o = e2e.compile_many(["#![allow(unused)]\nuse assert_struct::assert_struct;\nfn main() { let v = 1; assert_struct!(\n%s\n); }\n" % text],
+                             run=False, json_diag=True, tag="c13r")[0]
+        e2e.cleanup("c13r")
+        bad = "proc macro panicked" in o["stderr"]
+        print("under rustc:", "proc macro panicked (violation)" if bad else "no panic: property holds on this input")
+        return 1 if bad else 0
     import maclib
     vlib.build_model_runner()
     ok, out = maclib.build_mac()
